@@ -37,6 +37,9 @@ macro_rules! ans_impl {
                 },
                 _ => AnsCoder::from_binary(init_words).unwrap(),
             };
+            // op 16 forks a twin that receives every later encode/decode/reload but none of the
+            // inspections (C08): its results are printed right after the main coder's
+            let mut twin: Option<AnsCoder<$W, $S, Vec<$W>>> = None;
             while !r.done() {
                 let op = r.next();
                 match op {
@@ -49,6 +52,10 @@ macro_rules! ans_impl {
                             Err(CoderError::Frontend(_)) => ERR_IMPOSSIBLE,
                             Err(CoderError::Backend(e)) => match e {},
                         });
+                        if let Some(t) = twin.as_mut() {
+                            let res = with_p!($Pr, m.p, $plist, |tm| t.encode_symbol(sym, tm), &m.t);
+                            out.push(if res.is_ok() { 0 } else { ERR_IMPOSSIBLE });
+                        }
                     }
                     2 => {
                         let m = &models[r.us()];
@@ -57,6 +64,14 @@ macro_rules! ans_impl {
                             Ok(s) => out.push(s as Int),
                             Err(_) => unreachable!(),
                         }
+                        if let Some(t) = twin.as_mut() {
+                            let s = with_p!($Pr, m.p, $plist, |tm| t.decode_symbol(tm), &m.t).unwrap();
+                            out.push(s as Int);
+                        }
+                    }
+                    16 => {
+                        twin = Some(coder.clone());
+                        out.push(0);
                     }
                     3 => {
                         let ws = coder.into_compressed().unwrap();
@@ -169,6 +184,9 @@ macro_rules! ans_impl {
                 }
             }
             push_raw(&coder, out);
+            if let Some(t) = twin.as_ref() {
+                push_raw(t, out);
+            }
 
             fn push_raw(coder: &AnsCoder<$W, $S, Vec<$W>>, out: &mut Vec<Int>) {
                 let (bulk, state) = coder.clone().into_raw_parts();
